@@ -40,12 +40,25 @@ def run(v):
     q = v.tier == "quick"
     gfam = D.adj_family(SEED + 14, 12 if q else 60, maxlen=4 if q else 5, budget=4000 if q else 50000) + \
         D.alt_family(SEED + 15, 8 if q else 40, maxlen=3 if q else 4, budget=4000 if q else 50000)
+    # adjacent subcommands: help next to, inside and after their blocks, with an enclosing option in between
+    # (a named item declared after a command is a usage error bpaf reports when it renders help: not in this family)
+    def cmd_last(d):
+        ks = [k for k, f in enumerate(d["named"]) if f["kind"] == "adj" and f["head"]["kind"] == "cmd"]
+        return all(k == len(d["named"]) - 1 for k in ks)
+    gfam += [d for d in D.acmd_family(SEED + 16, 12 if q else 60, maxlen=4 if q else 5, budget=4000 if q else 50000) if cmd_last(d)]
     for d in gfam:
         d["alpha"]["extras"] = ["help"]
         D.galpha_trim(d, 4000 if q else 50000)
         d["alpha"]["extras"] = ["help"]
+    def gsig(m):
+        s = cmdline_sig.signature(m)
+        d = m.get("def_full") or {}
+        acmd = isinstance(d, dict) and any(f.get("kind") == "adj" and f["head"]["kind"] == "cmd" for f in d.get("named", []))
+        if acmd and s.get("expect") == "stdout:help" and s.get("got") == "stderr":
+            return {"rule": "help_hidden_by_failing_adjacent_command"}
+        return s
     gcov = run_cmdline_property(v, gfam, None, replay_cfg="MC_GroupLine_replay.cfg", module="MC_GroupLine",
-                                signature=cmdline_sig.signature, trace_module="GroupLineTrace", name="C10g")
+                                signature=gsig, trace_module="GroupLineTrace", name="C10g")
     cov = merge_cov(cov, gcov, "groupline")
     cov["rule"] = ("every line up to maxlen over alphabets that contain the help and version items at every position "
                    "(after command names, between an argument name and its value, on valid/invalid/incomplete lines); "
